@@ -14,8 +14,8 @@ TNext ==
          c0 == IF e.i = 0 THEN {Start} ELSE cands
          f0 == IF e.i = 0 THEN FALSE ELSE failed
          o  == [op |-> e.op, a |-> e.a, b |-> e.b, c |-> e.c]
-         ft == (IF e.i = 0 THEN {} ELSE feat) \cup UNION {Features(s, o) : s \in c0}
          c1 == UNION {Step(s, o) : s \in c0}
+         ft == (IF e.i = 0 THEN {} ELSE feat) \cup UNION {Features(s, o) : s \in c0} \cup UNION {StateFeatures(s) : s \in c1}
          c2 == IF "obs" \in DOMAIN e THEN {s \in c1 : ObsOK(s, e.obs) /\ QObsOK(s, e.qobs)} ELSE c1
      IN /\ feat' = ft
         /\ IF f0 THEN /\ UNCHANGED <<cands, bad, seen>> /\ failed' = TRUE
